@@ -114,6 +114,7 @@ class Gen:
                 "chain": r.choice([0, 2, 4]),
                 "set_config": r.choice([1, 2, 4]) + (3 if self.prop == "C10" else 0),
                 "refill": r.choice([0, 1, 2]),
+                "loop": r.choice([0, 1, 2]),
                 "scribble": r.choice([0, 1, 2]),
                 "drop": r.choice([0, 1]),
                 "rebuild": r.choice([0, 1, 2]),
@@ -836,6 +837,56 @@ class Gen:
                 old = results.pop(0)
                 add({"op": "drop", "target": old["id"]})
 
+        current = {}  # frame id -> content after the refills generated so far (self.frames keeps the initial one)
+
+        def do_refill(fid):
+            spec = current.get(fid, self.frames[fid])
+            # new numbers / permuted levels, same shape, same columns
+            new = {"cols": [], "index": list(spec["index"])}
+            for name, kind, values, extra in spec["cols"]:
+                if kind == "float":
+                    vals = [round(v * 1.5 + 3, 3) if v is not None else None for v in values]
+                else:
+                    vals = list(values)
+                    r.shuffle(vals)
+                new["cols"].append([name, kind, vals, extra])
+            current[fid] = new
+            add({"op": "refill", "frame": fid, "spec": new})
+
+        def emit_eval(d, part, fid, kind, **meta):
+            rid = f"r{self._oid}"
+            self._oid += 1
+            op = {"op": "eval", "id": rid, "target": d["id"], "root": d["id"], "part": part, "depth": 0,
+                  "frame": fid, "kind": kind, "reuse": True, "fault": None}
+            op.update(meta)
+            add(op)
+            results.append({"id": rid, "root": d["id"], "part": part, "parent": d["id"], "depth": 0})
+            if len(results) > 8:
+                add({"op": "drop", "target": results.pop(0)["id"]})
+
+        def do_loop():
+            """A prediction loop: the caller evaluates ONE DataFrame object, refills it in place with the next
+            batch and evaluates it again, nothing else in between; then another design that was trained on the
+            same frame evaluates that very object too."""
+            d = r.choice(designs)
+            fm = d["fm"]
+            part = "group" if fm["groups"] and r.random() < 0.4 else "common"
+            spec = self.fresh_frame(self.frames[d["train"]], fm, n=r.choice([1, 3, 6, 10]))
+            spec = {"cols": spec["cols"], "index": self.make_index(F.n_rows(spec))}  # every column kept
+            fid = self.new_frame_id("N")
+            self.frames[fid] = spec
+            emit_eval(d, part, fid, "fresh")
+            for _ in range(r.choice([1, 1, 2])):
+                do_refill(fid)
+                emit_eval(d, part, fid, "fresh")
+            others = [x for x in designs if x["train"] == d["train"] and x["id"] != d["id"]]
+            if others and r.random() < 0.6:
+                o = r.choice(others)
+                opart = part if (part == "common" or o["fm"]["groups"]) else "common"
+                emit_eval(o, opart, fid, "fresh")
+                emit_eval(d, part, fid, "fresh")
+            used_new.append(fid)
+
         def do_set_config():
             nonlocal mode
             style = r.choice(["attr", "item"])
@@ -857,6 +908,7 @@ class Gen:
                 "eval": w["eval"] + w["chain"],
                 "set_config": w["set_config"],
                 "refill": w["refill"] if used_new else 0,
+                "loop": w.get("loop", 0),
                 "scribble": w["scribble"] if results else 0,
                 "drop": w["drop"] if results else 0,
                 "rebuild": w["rebuild"],
@@ -871,19 +923,9 @@ class Gen:
             elif k == "set_config":
                 do_set_config()
             elif k == "refill":
-                fid = r.choice(used_new)
-                spec = self.frames[fid]
-                # new numbers / permuted levels, same shape, same columns
-                n = F.n_rows(spec)
-                new = {"cols": [], "index": list(spec["index"])}
-                for name, kind, values, extra in spec["cols"]:
-                    if kind == "float":
-                        vals = [round(v * 1.5 + 3, 3) if v is not None else None for v in values]
-                    else:
-                        vals = list(values)
-                        r.shuffle(vals)
-                    new["cols"].append([name, kind, vals, extra])
-                add({"op": "refill", "frame": fid, "spec": new})
+                do_refill(r.choice(used_new))
+            elif k == "loop":
+                do_loop()
             elif k == "scribble":
                 add({"op": "scribble", "target": r.choice(results)["id"], "value": r.choice([-7.0, 1e6, 0.0])})
             elif k == "drop":
